@@ -22,7 +22,7 @@
     (The former exclusion of renames cut short by a panic is gone with fix edcb06d.) *)
 From Coq Require Import NArith ZArith List String Bool.
 From P9V Require Import Base.Str gen.ConstGen gen.HandlerGen Server.State Server.Msg Server.SessionSpec Server.Handlers
-  Server.Summaries Server.NameProofs Server.SummaryProofs Server.SpecProofs Server.FaultProofs Server.Ledger Server.Refine Server.TableFrame Server.RefineOk.
+  Server.Summaries Server.NameProofs Server.SummaryProofs Server.SpecProofs Server.FaultProofs Server.Ledger Server.Refine Server.TableFrame Server.RefineOk Server.TableInj.
 Import ListNotations.
 Open Scope N_scope.
 
@@ -208,13 +208,21 @@ Theorem C04_refines_covered : forall s c m tape,
 Proof. exact refines_covered. Qed.
 Print Assumptions C04_refines_covered.
 
+(** the invariant of the refinement ([Inv] = [Ledger] and an injective fid table: a request only ever binds
+    fidRefs it allocated itself) holds after every history, hence so does the refinement *)
+Theorem C04_Inv_every_history : forall h, Inv (Refine.run init_state h).
+Proof. exact inv_every_history. Qed.
+Theorem C04_refines_covered_every_history : forall h c m tape,
+  covered m = true -> refines_at (Refine.run init_state h) c m tape.
+Proof. exact refines_covered_every_history. Qed.
+Print Assumptions C04_refines_covered_every_history.
+
 (** [covered]: Tversion, Tflush, Tauth, unhandled types, Tgetattr, Tsetattr, Tlopen, Tread, Twrite,
     Treaddir, Tfsync, Tstatfs, Tlock, Treadlink, Tmkdir, Tmknod, Tsymlink, Tlink, Txattrcreate (with
     their Tu* variants) -- refused or not, all tapes (errors, EOF, panics).
     NOT YET COVERED by a whole-request refinement (their refusals are, by [C04_refines_refusals]; their
     table frame is, by [C04_other_fids_untouched]): Tclunk, Tremove, Twalk, Twalkgetattr, Tattach,
-    Tlcreate, Txattrwalk, Tunlinkat, Trename, Trenameat.  Also open: that [tinj] (a fidRef is bound to
-    at most one fid) holds after every history (it needs the inserted fidRefs to be fresh). *)
+    Tlcreate, Txattrwalk, Tunlinkat, Trename, Trenameat. *)
 Theorem C04_refines_partial : forall s c m tape,
   Ledger s -> tinj s ->
   (covered m = true -> refines_at s c m tape) /\
